@@ -143,6 +143,26 @@ EXTRA = {
     "C19": "Snapshot names with bracketed tokens; traffic logs of blocks containing the protocol's tag text (exposed D22, fixed).",
     "C20": "The connection sequence as a whole is specified in SyncConnect.tla (request chain with budgets, final connect, ping thread and the connection timeout) and real connections under loss inside and beyond the budgets are validated against SyncConnect_Trace.",
 }
+EXTRA6 = {
+    "C03": "An observer may apply another update from inside its callback (re-entrant history): both updates are judged.",
+    "C05": "The blocking client's periodic refresh loses a middle segment while a change inside an already received segment is reported; byte-identical consecutive reports.",
+    "C06": "Answers addressed to another client of the same spa arrive while ours are lost; an API call that ends with an exception is allowed only after the transport was lost.",
+    "C07": "Well-addressed frames with bytes before or after them (NUL, space, CRLF, truncation) are malformed framing and must have no effect.",
+    "C08": "Resets inside a suspended handler of the connection attempt (occurrence-keyed suspensions); RF bursts placed by the pilot run's handshake events.",
+    "C09": "A reset while the handler of the connection's own LOCATING_FINISHED is suspended; a live value whose change report is lost must be mirrored again after the periodic refresh.",
+    "C10": "A key press waiting for its acknowledgement at reset / exit; a client that watches individual devices and resets from inside the facade's update task (lateness judged by order).",
+    "C12": "Table order is read from the table module, not from the structure object.",
+    "C13": "A second pass over the pumps while the other pumps are running (fields sharing a byte are non-zero).",
+    "C14": "Set point writes with the spa's current set point one device step to either side of the requested one.",
+    "C15": "Every task a discovery run starts must be gone when it returns; evidence: a stray datagram on the locator's queue (LocatorQueue.tla witness reproduced, outside the property).",
+    "C16": "One GeckoAsyncSpa object connected, disconnected and connected again; open() called by the intruder during a victim's call.",
+    "C17": "The harness re-evaluates the mode once per facade (first update cycle) and otherwise relies on the facade's own watchers.",
+    "C18": "Platforms are also fed through the handshake under the spelling a spa reports (MrSt for MrSteam).",
+    "C19": "Shipped snapshots are also served by a simulator brought up with first commands (load <file>).",
+    "C20": "Whole passes of the real engine with the answer already waiting in the pass in which the timeout runs out.",
+}
+for _k, _v in EXTRA6.items():
+    EXTRA[_k] = (EXTRA.get(_k, "") + " " + _v).strip()
 for _k, _v in EXTRA.items():
     CHECKS[_k]["text"] = CHECKS[_k]["text"] + " " + _v
 
